@@ -3,6 +3,8 @@ CONSTANTS MaxSteps = 2
           FreeSteps = 1
           Scope = "series"
           Caller = FALSE
+          Edits = FALSE
+          Pairs = "no"
           Extend = TRUE
 INIT Init
 NEXT Next
